@@ -365,6 +365,60 @@ def classify(case):
     return out
 
 
+@st.composite
+def uncloseable_cases(draw):
+    return {"n": draw(st.integers(0, 8)), "kind": draw(st.sampled_from(["aclass_noclose", "areiter_noclose"])),
+            "steps": draw(st.lists(st.tuples(st.sampled_from(["islice", "next", "takewhile", "zip"]), st.integers(0, 3)),
+                                   min_size=1, max_size=5))}
+
+
+def check_uncloseable(case):
+    """sources that cannot be closed at all (no aclose; an async iterable whose cursors have none): there is nothing to
+    protect and nothing to close, but INSIDE the block the provided iterator is one shared position like any other -
+    each tool sees the items that follow those consumed before (nothing is claimed about the time after the block)"""
+    import itertools
+
+    ctx = Ctx("a")
+    items = list(range(case["n"]))
+    src = make_source(ctx, "u", items, {"fl": case["kind"]}, "a")
+    model = iter(items)
+
+    async def program():
+        got, want = [], []
+        async with a.scoped_iter(src.obj) as h:
+            for name, k in case["steps"]:
+                if name == "next":
+                    try:
+                        got.append(await h.__anext__())
+                    except StopAsyncIteration:
+                        got.append("stop")
+                    want.append(next(model, "stop"))
+                elif name == "islice":
+                    got.append([x async for x in a.islice(h, k)])
+                    want.append(list(itertools.islice(model, k)))
+                elif name == "takewhile":
+                    got.append([x async for x in a.takewhile(lambda x: x % 4 != 3, h)])
+                    want.append(list(itertools.takewhile(lambda x: x % 4 != 3, model)))
+                else:
+                    got.append([x async for x in a.zip(range(k), h)])
+                    want.append(list(zip(range(k), model)))
+        return got, want
+
+    with loop_mode(ctx, "hooks"):
+        outcome = run(ctx, program())
+        close_orphans(ctx)
+    got, want = expect_return(outcome, "C08/uncloseable")
+    if got != want:
+        raise Violation("C08/item-not-next-of-underlying", f"kind={case['kind']} steps={case['steps']}: scoped={got} "
+                                                           f"shared sync iterator={want}")
+    if case["kind"] == "areiter_noclose" and src.opens != 1:
+        raise Violation("C08/iterable-asked-for-an-iterator-more-than-once", f"opens={src.opens}")
+    return {"evaluations": 1, "nontrivial": ["x"] if len(case["steps"]) >= 2 and case["n"] >= 2 else [], "labels": {}}
+
+
 def shards(tier):
-    return [Shard(f"programs-{i}", check, strategy=programs(tier), n=400, nontrivial=lambda c: False,
-                  classify=classify, thorough_mult=20) for i in range(8)]
+    out = [Shard(f"programs-{i}", check, strategy=programs(tier), n=400, nontrivial=lambda c: False,
+                 classify=classify, thorough_mult=20) for i in range(8)]
+    out.append(Shard("uncloseable-sources", check_uncloseable, strategy=uncloseable_cases(), n=400,
+                     nontrivial=lambda c: False, thorough_mult=10))
+    return out
